@@ -132,14 +132,16 @@ class ContractMixin(CallMixin):
             ok, tn = pyconst(args[1])
             v = self.force(st, args[0])
             if isinstance(v, VDyn):
-                return VBool(t_or(*[v.tag == i for i, (ty, a) in enumerate(v.alts) if {0: "NoneType", 1: "bool", 2: "int", 3: "float", 4: "str"}[i] == tn]))
+                canon = {0: "NoneType", 1: "bool", 2: "int", 3: "float", 4: "str"}
+                return VBool(t_or(*[v.tag == i for i, (ty, a) in enumerate(v.alts)
+                                    if (canon[i] if i in canon else self.pytype_name(st, a)) == tn]))
             return VBool(self.pytype_name(st, v) == tn)
         if name == "sameobj":
             a, b = args
             if not (isinstance(a, VRef) and isinstance(b, VRef)):
                 return VBool(False)
             ca, cb = self.canon(st, a), self.canon(st, b)
-            if ca.root == cb.root and ca.path == cb.path:
+            if ca.root == cb.root and (ca.path == cb.path or self.same_path(ca.path, cb.path)):
                 return VBool(True)
             if ca.root.startswith("p:") and cb.root.startswith("p:"):
                 # two different access paths into the entry state: the heap model keeps them apart but cannot exclude
